@@ -104,6 +104,7 @@ type dump struct {
 	Violations                      []dumpViolation
 	Records                         []string
 	NonExhaustive                   bool
+	Why                             string // reason recorded with NotExhaustive, if any
 }
 
 // ProcFor runs f(input, i, emit) for every i in [0,n) spread over child processes. Whatever f
@@ -212,6 +213,10 @@ func (c *Check) writeDumpAndReset(path string, recs []string) {
 	defer c.mu.Unlock()
 	d := dump{Evals: c.Evaluations, States: c.States, Trans: c.Transitions, Validated: c.TracesValidated,
 		Records: recs, NonExhaustive: c.nonExhaustive.Load()}
+	if w, ok := c.extra["not_exhaustive_because"].(string); ok {
+		d.Why = w
+		delete(c.extra, "not_exhaustive_because")
+	}
 	for k := range c.distinct {
 		d.Distinct = append(d.Distinct, base64.RawStdEncoding.EncodeToString([]byte(k)))
 	}
@@ -252,6 +257,11 @@ func (c *Check) mergeDump(d *dump, collect func([]byte)) {
 	c.AddValidated(d.Validated)
 	if d.NonExhaustive {
 		c.nonExhaustive.Store(true)
+		if d.Why != "" {
+			c.mu.Lock()
+			c.extra["not_exhaustive_because"] = d.Why
+			c.mu.Unlock()
+		}
 	}
 	c.mu.Lock()
 	for _, k := range d.Distinct {
